@@ -89,6 +89,9 @@ static ModelSpec genModel(Rng &rng, bool twoPinOnly, bool allowPads = false) {
     t.w = (float)rng.pick(std::vector<double>{0.25, 0.5, 1, 1.5, 2, 2.5, 3, 0.125, 7});
     t.mn = (float)rng.range(-200, 200) * mag;
     t.mx = t.mn + ((twoPinOnly || rng.chance(0.3)) ? 0 : (float)rng.range(0, 300) * mag);
+    // the circuit-level topologies clamp the interval of the fixed pins to the placement area one side at a time: pads that
+    // all lie beyond one edge give an interval whose ends are exchanged (both ends are still fixed pins of the net)
+    if (!twoPinOnly && rng.chance(0.1)) t.mx = t.mn - (float)rng.range(1, 300) * mag;
     m.span = std::max(m.span, (double)std::max(std::fabs(t.mn), std::fabs(t.mx)));
     m.nets.push_back(t);
   }
